@@ -1,20 +1,18 @@
 import json, sys
 wave = sys.argv[1]
-avoid = {
- "C01": ["loosening the containment test in utils.get_weighted_cover"],
- "C04": ["adding successor sets straight into Event.event_sets in event_inputs_to_events without marking the gate tree stale"],
- "C05": ["copies of a PUML event node losing their sub_graph in update_graph_for_dummy_break_event_node"],
- "C07": ["narrowing the unreachable-node pruning in calculate_updated_graph_with_loop_event to loop.break_events"],
- "C08": ["taking a group's end time from its last-starting member in the async sequencer", "sorting group members after ordering the groups in order_groups_by_start_timestamp", "comparing with the last sibling's end instead of the chain's running maximum", "returning empty prior-information groups"],
- "C09": ["changing the time-window predicate of create_temp_table_of_root_nodes_in_time_window to full containment"],
- "C10": ["de-duplicating the pending batch with itertools.groupby over the unsorted batch"],
- "C11": ["moving the window filter into a shared helper that tests full containment"],
- "C12": ["inserting start_timestamp into the ORDER BY of stream_job_name_batches before job_id"],
- "C13": ["yielding a stale event variable after a validation failure in parse_json_stream"],
- "C14": ["not forwarding mapping_config from handle_save_events to save_pv_event_stream_to_file"],
- "C15": ["deleting NODE_ASSOCIATION rows with a subquery that runs after the node rows are already gone", "never clearing job_hashes"],
- "C16": ["multiplying by a 1e-9 constant in unix_nano_to_pv_string", "int(dt.timestamp() * 10**6) in convert_timestamp_to_unix_nano", "adding dt.microsecond on top of dt.timestamp()"],
-}
+import glob, os
+avoid = {}
+for mp in sorted(glob.glob('/verif/seeded/*/meta.json')):
+    m = json.load(open(mp))
+    txt = " ".join(str(m.get("summary", "")).split())
+    if len(txt) > 330:
+        txt = txt[:330].rsplit(" ", 1)[0] + " ..."
+    avoid.setdefault(m["property"], []).append(txt)
+flavours = [
+    "two cooperating sites that each look fine alone (change one function so that an assumption another function relies on no longer holds)",
+    "a multi-step history of runs / operations (state left behind by an earlier step matters)",
+    "a fault, exception or early exit at a particular point (error-handling / cleanup path)",
+    "an unusual but legal input shape or ordering that the existing fixtures never contain"]
 for line in open('/verif/properties.jsonl'):
     p = json.loads(line)
     pid = p['id']
@@ -22,6 +20,7 @@ for line in open('/verif/properties.jsonl'):
     a = p['anchors']
     mech = "\n".join(f"  - {m['name']}  ({m['where']})" for m in a.get('mechanism', []))
     state = "\n".join(f"  - {m['name']}: {m['meaning']}  ({m['where']})" for m in a.get('state', []))
+    flavour = flavours[(int(pid[1:]) + ord(wave[0])) % len(flavours)]
     av = "\n".join(f"  - {x}" for x in avoid.get(pid, [])) or "  (none yet)"
     t = f"""# Task: seed a realistic, hard-to-notice regression into xtuml/otel2puml
 
@@ -70,6 +69,9 @@ that **breaks this property** while
    assumes).  Prefer changes in code paths that the fixtures of the existing
    tests do not exercise or cannot distinguish.
 
+For THIS task prefer the following flavour if the code offers it:
+**{flavour}**.
+
 Ideas that were ALREADY used and must not be repeated (find a different
 mechanism, preferably in a different function):
 {av}
@@ -116,5 +118,6 @@ needed to see it, the three results.  If after a serious attempt you cannot
 find a change that meets every requirement, say so plainly instead of
 delivering a weak one.
 """
-    open(f"{wt}/_seed/TASK.md", "w").write(t)
+    if os.path.isdir(f"{wt}/_seed"):
+        open(f"{wt}/_seed/TASK.md", "w").write(t)
 print("ok")
